@@ -1204,6 +1204,12 @@ func (x *Exec) runStmtHooks(s ast.Stmt, txt string, st *State, before bool) {
 				continue
 			}
 			g := x.specBool(as.Assert, st, sp)
+			if as.Assert.Kind == "assume" {
+				// an explicit, listed assumption (e.g. about the content of a parameter table read here)
+				x.trustedUsed[fmt.Sprintf("%s: assumed at %s: %s (%s)", x.uc.ID(), x.prog.pos(s.Pos()), as.Assert.Text, as.Assert.Name)] = true
+				x.assume(st, g, "assumed:"+as.Assert.Name)
+				continue
+			}
 			x.assert(st, g, "assert", fmt.Sprintf("%s/assert:%s", x.uc.ID(), as.Assert.Name), as.Assert.Tags, s.Pos(), as.Assert.Text)
 			continue
 		}
